@@ -12,6 +12,31 @@ def isNewPopularity (differsFromAll : Bool) : Bool := differsFromAll
 
 def differsPopularity (same : Bool) : Bool := (!same)
 
+/-- comparisons with an optional number.  `…Opt`: `none` is Python's `None` (the code never compares with it: the test
+    `x is None or …` comes first), so every comparison with it is false; `…Inf`: `none` is `float("inf")`. -/
+def ltOpt (a : Rat) : Option Rat → Bool
+  | none => false
+  | some b => decide (a < b)
+def gtOpt (a : Rat) : Option Rat → Bool
+  | none => false
+  | some b => decide (a > b)
+def eqOpt (a : Rat) : Option Rat → Bool
+  | none => false
+  | some b => decide (a = b)
+def ltInf (a : Rat) : Option Rat → Bool
+  | none => true
+  | some b => decide (a < b)
+def gtInf (a : Rat) : Option Rat → Bool
+  | none => false
+  | some b => decide (a > b)
+def eqInf (a : Rat) : Option Rat → Bool
+  | none => false
+  | some b => decide (a = b)
+
+def welfareLoop : (Option Rat) → (List Nat) → List (Nat × Rat) → ((Option Rat) × (List Nat))
+  | best, arg, [] => (best, arg)
+  | best, arg, x :: xs => (if ((best).isNone || (gtOpt x.2 best)) then (welfareLoop ((some x.2)) [x.1] xs) else (if (eqOpt x.2 best) then (welfareLoop best ((arg ++ [x.1])) xs) else (welfareLoop best arg xs)))
+
 def welfareImproves (first : Bool) (welfare best : Rat) : Bool := (first || (decide (welfare > best)))
 
 def welfareTies (welfare best : Rat) : Bool := (decide (welfare = best))
